@@ -22,6 +22,8 @@
 //                                                that the call itself is well formed)  -> <name> OK
 //   nomut <name> <ro|rw>                         a mutating-looking call that has nothing to write in that state
 //   mutin <name> <unlink-checked>                one mutator of the table inside the current session -> <name> OK|ERR attrs=.. fileref=..
+//   open2 <mode> <comp> <force> | mutin2 <name> <uc> | blk2 n | dump2 | flush2 | close2
+//                                                a SECOND File object on the case path while the session is open
 //   battery                                      read everything: data, sections, tagged data, validator
 //   flush | close                                -> 1 attrs=0 / objs=0
 //   hold <kind> <n> | drop <kind> <n>            acquire / release live handles on the rich block "r"
